@@ -103,15 +103,45 @@ func c13Reply(p *chk.Prog, r *chk.Report) {
 			x.Check("arp:reply:announcer-verdict", s.Pos(), g.Dominated(s, g.GPat(false, "V != dropReasonNone", chk.H("V", verdict))), "", "a request can be answered although the announcer did not say dropReasonNone for that address on this interface")
 			// the converse: a request is left unanswered only for one of those three reasons or a failed read - whoever
 			// asks (an address probe with sender 0.0.0.0, a gratuitous request, ...) gets the owner's answer
-			allowed := chk.GAnyOf(
-				g.GErrNil(false, "RECV.conn.Read()", chk.H("RECV", isRecv(f))),
-				g.GPat(true, "PKT.Operation != arp.OperationRequest", chk.H("PKT", same)),
-				g.GPat(true, "!bytes.Equal(ETH.Destination, ethernet.Broadcast) && !bytes.Equal(ETH.Destination, RECV.hardwareAddr)"),
-				g.GPat(true, "V != dropReasonNone", chk.H("V", verdict)))
-			w := (&chk.Walk{G: g, Stop: func(n ast.Node) bool { return n == s.Top },
-				Hit: func(n ast.Node) bool { _, isRet := n.(*ast.ReturnStmt); return isRet },
-				Cut: func(b *cfgBlock, k int) bool { return g.EdgeImplies(b, k, allowed) }}).Run()
-			x.Check("arp:no-other-drop", posOf(w, f), !w.Found, "", "a well-formed request for an address the announcer answers for can be dropped for a further reason (a filter on the sender, say): address probes and duplicate-address detection of the clients go unanswered, and a second owner of the address is not noticed")
+			readFailed := g.GErrNil(false, "RECV.conn.Read()", chk.H("RECV", isRecv(f)))
+			notRequest := g.GPat(true, "PKT.Operation != arp.OperationRequest", chk.H("PKT", same))
+			notForUs := g.GPat(true, "!bytes.Equal(ETH.Destination, ethernet.Broadcast) && !bytes.Equal(ETH.Destination, RECV.hardwareAddr)")
+			// decided on what is returned (an answer handed over through result variables of an expanded helper is
+			// followed back): a constant reason stands under the test that justifies it; anything else is the announcer's
+			// own verdict; dropReasonNone is the answer after the reply
+			okDrop, at := true, f.Pos()
+			nRet := 0
+			for _, rt := range g.Returns() {
+				res := retResults(rt)
+				if len(res) != 1 {
+					continue
+				}
+				for _, form := range valueForms(g, f, res[0], rt, 4) {
+					nRet++
+					e := form.E
+					switch {
+					case e == nil:
+						okDrop, at = false, rt.Pos()
+					case verdict(e):
+					case isObjNamed(f, "internal/layer2.dropReasonNone")(e):
+					case isObjNamed(f, "internal/layer2.dropReasonClosed")(e), isObjNamed(f, "internal/layer2.dropReasonError")(e):
+						if !g.Dominated(form.At, readFailed) {
+							okDrop, at = false, form.At.Pos()
+						}
+					case isObjNamed(f, "internal/layer2.dropReasonARPReply")(e):
+						if !g.Dominated(form.At, notRequest) {
+							okDrop, at = false, form.At.Pos()
+						}
+					case isObjNamed(f, "internal/layer2.dropReasonEthernetDestination")(e):
+						if !g.Dominated(form.At, notForUs) {
+							okDrop, at = false, form.At.Pos()
+						}
+					default:
+						okDrop, at = false, form.At.Pos()
+					}
+				}
+			}
+			x.Check("arp:no-other-drop", at, okDrop && nRet >= 5, "", "a well-formed request for an address the announcer answers for can be dropped for a further reason (a filter on the sender, say): address probes and duplicate-address detection of the clients go unanswered, and a second owner of the address is not noticed")
 		}
 	}
 	n := need(x, p, "internal/layer2", "ndpResponder", "processRequest")
